@@ -202,7 +202,14 @@ impl TypeResolver {
     /// Parse a Rust type string into a structured TypeStructure
     /// This is the single source of truth for type parsing - generators use this instead of parsing strings
     pub fn parse_type_structure(&self, rust_type: &str) -> TypeStructure {
-        let cleaned = rust_type.trim();
+        let trimmed = rust_type.trim();
+        // `std::collections::HashMap<K, V>` is `HashMap<K, V>`, `crate::models::User` is `User`:
+        // TypeScript has no `::` paths, and the recognisers below match on the bare name
+        let cleaned = if self.type_mappings.contains_key(trimmed) {
+            trimmed
+        } else {
+            Self::strip_path_qualifier(trimmed)
+        };
 
         // Handle references &T -> T
         if let Some(inner) = self.extract_reference_type(cleaned) {
@@ -262,6 +269,18 @@ impl TypeResolver {
 
         // Otherwise, it's a custom type
         TypeStructure::Custom(cleaned.to_string())
+    }
+
+    /// Drop the module path in front of a type name: `a::b::Name<..>` -> `Name<..>`.
+    /// Only the outermost name is touched; type arguments are handled when they are parsed.
+    pub(crate) fn strip_path_qualifier(rust_type: &str) -> &str {
+        let head_end = rust_type
+            .find(|c: char| !(c.is_alphanumeric() || c == '_' || c == ':'))
+            .unwrap_or(rust_type.len());
+        match rust_type[..head_end].rfind("::") {
+            Some(pos) => &rust_type[pos + 2..],
+            None => rust_type,
+        }
     }
 
     /// Map Rust primitive types to target language primitives
